@@ -461,6 +461,49 @@ func evalOrders(c *vk.Ctx, cs *Case, ins []*input, orders [][]int) {
 	for _, ord := range orders {
 		evalOrder(c, cs, ins, ord, want, all, before)
 	}
+	if len(orders) > 0 {
+		mergeAfterWrite(c, cs, ins, orders[0])
+	}
+}
+
+// mergeAfterWrite: one of the inputs has been written (saved, copied) before the
+// merge - which leaves the encoder's scratch state in it - and the others have
+// not: the merge is the same as without the write.
+func mergeAfterWrite(c *vk.Ctx, cs *Case, ins []*input, ord []int) {
+	if len(ord) < 2 {
+		return
+	}
+	plain, err := profile.Merge(buildAll(ins, ord))
+	if err != nil {
+		return // reported by evalOrder
+	}
+	want := agg{}
+	want.add(ap.Abstract(plain))
+	want.dropZero()
+	for _, k := range []int{0, len(ord) - 1} {
+		c.Eval()
+		wit := func() Case { return witness(cs, ins, ord) }
+		srcs := buildAll(ins, ord)
+		if _, ok := encode(srcs[k]); !ok {
+			continue
+		}
+		var res *profile.Profile
+		if !c.Guard("merge-after-write", wit(), func() { res, err = profile.Merge(srcs) }) {
+			return
+		}
+		if err != nil {
+			c.Violationf("merge/after-write/error", wit(), "input %d was written before the merge: %v", k, err)
+			return
+		}
+		got := agg{}
+		got.add(ap.Abstract(res))
+		got.dropZero()
+		if !got.equal(want) {
+			c.Violationf("merge/after-write/differs", wit(), "input %d was written before the merge:\n%s\nwithout the write:\n%s", k, got, want)
+			return
+		}
+		c.Count("merges/after-write", 1)
+	}
 }
 
 func sameAgg(a, b *ap.AP) bool {
